@@ -505,7 +505,35 @@ theorem waits_bounded (c : Cfg) (retries : Int) (op : Nat → Outcome) (ctx : Ct
 example : (runScript ⟨1000, 3000, 2, false⟩ 5 [.retry, .retry, .retry, .retry, .retry] none [] []).waits =
     [1000, 2000, 3000, 3000] := by decide
 
-/-! ## the jitter feasibility decision used by the correspondence -/
+/-! ## the monitor and the jitter feasibility decision used by the correspondence -/
+
+/-- the pause monitor applied to real observations accepts everything the (translated) code can return -/
+theorem monitor_accepts (base max keep : Int) (jitter : Bool) (n s : Int) (hb : 1 ≤ base) (hm : 1 ≤ max)
+    (hm' : max < 2 ^ 63) (hs : 0 ≤ s) (hs' : s < 2 ^ n.toNat) :
+    specWaitOk base max jitter n (Gen.retry_nextWait base max keep jitter n s) = true := by
+  unfold specWaitOk
+  cases jitter
+  · rw [wait_nojitter base max keep n s hb hm hm']
+    split
+    · simp
+    · split <;> simp
+  · have hj := wait_jitter base max keep n s hb hm hm' hs hs'
+    rw [wait_jitter_exact base max keep n s hb hm hm' hs] at hj ⊢
+    by_cases h1 : n ≤ 0
+    · simp [h1]
+    · by_cases h2 : n ≥ 63
+      · simp [h1, h2]
+      · simp only [h1, h2, if_false] at hj ⊢
+        simp only [if_true, Bool.and_eq_true, decide_eq_true_eq, Bool.or_eq_true, beq_iff_eq]
+        refine ⟨⟨hj.1, hj.2⟩, ?_⟩
+        by_cases h : max ≤ base * s
+        · exact Or.inl (by omega)
+        · right
+          have : min max (base * s) = base * s := by omega
+          rw [this]; exact Int.mul_emod_right base s
+
+example : specWaitOk 3 100 true 3 22 = false ∧ specWaitOk 3 100 false 3 13 = false ∧ specWaitOk 3 100 false 3 12 = true := by decide
+
 
 /-- every value the decision accepts is produced by some draw `0 ≤ s < 2^n` -/
 theorem feasible_sound (base max n w : Int) (h : feasible base max n w = true) :
